@@ -168,6 +168,10 @@ func vh_C12_SpawnTree() {
 	parent.Close()
 	orphan := parent.Spawn(func(ac *ActorDef[int], m int) {})
 	vfAssert("closed-parent-no-registration", vfAnd(orphan.GetParent() == nil, parent.GetChild(orphan.GetID()) == nil))
+	// ... but an OPEN actor still adopts, whatever happened to its own parent (only "the parent" counts, not ancestors)
+	late := child.Spawn(func(ac *ActorDef[int], m int) {})
+	vfAssert("grandchild-parent", late.GetParent() == child)
+	vfAssert("parent-child", child.GetChild(late.GetID()) == late)
 	got := 0
 	orphan2 := parent.Spawn(func(ac *ActorDef[int], m int) { got = m })
 	orphan2.Send(5)
